@@ -23,6 +23,7 @@ func init() {
 			"(R4) Manager.terminate closes the transport and the stream buffer in its first-set-wins branch; Stream.Cancel sets cancel, send=EOF and terminates unless finished; " +
 			"(R5) every error that originates from the shared writer and is returned by a Stream method passes through checkCancelError; " +
 			"(R6) every blocking select in drpcmanager has a term or ctx.Done case, and every bare blocking operation there is one of the reviewed, paired ones; " +
+			"(R8) every blocking select on the call path of NewClientStream/NewServerStream (plain calls, not goroutines) waits on Done() of the caller's own context, not only on the manager's term signal; " +
 			"(R7) in drpcconn no mutex is held at a call of Manager.NewClientStream: a second call that has to wait for the stream slot waits in acquireSemaphore's select (which has the ctx.Done case), not in sync.Mutex.Lock behind the first call.",
 		NotDecided: "that every blocked call actually returns for every in-flight set of operations; peer-side cancellation; usability of the connection afterwards; the soft-cancel busy race (try-lock failing for a non-blocking holder) noted in DESIGN.md.",
 		Assumptions: []string{
@@ -39,6 +40,7 @@ func init() {
 			{ID: "C04.R5", Doc: "write errors returned by Stream methods pass through checkCancelError (blocked sends report the context's error)", Run: c04r5},
 			{ID: "C04.R6", Doc: "every blocking select in drpcmanager has a term/ctx.Done case; bare blocking operations are the reviewed, paired set", Run: c04r6},
 			{ID: "C04.R7", Doc: "a client call waits for the connection's stream slot holding no mutex of the Conn (the wait in NewClientStream is the one a cancelled context can leave)", Run: c04r7},
+			{ID: "C04.R8", Doc: "the stream constructors wait cancellably: every blocking select reached from NewClientStream / NewServerStream by plain calls inside drpcmanager has a case on Done() of the context the caller passed in (a term-only select leaves a cancelled caller parked behind a previous stream that a stalled transport keeps from finishing)", Run: c04r8},
 			{ID: "C04.S1", Doc: "the lent receive buffer is always handed back (packetBuffer.Close waits for it while Stream.Cancel holds Stream.mu)", Alias: "C01.R3"},
 			{ID: "C04.S2", Doc: "packet-buffer wake-ups: a cancelled receiver parked in Get is woken by Close", Alias: "C01.R4"},
 			{ID: "C04.S3", Doc: "cancel sets the state signals under Stream.mu", Alias: "C03.R1"},
@@ -907,4 +909,82 @@ func closedByOwnClose(c *an.Ctx, fn *ssa.Function, ch ssa.Value, fns []*ssa.Func
 		}
 	}
 	return false, ""
+}
+
+// c04r8: on the synchronous call path of the two stream constructors every blocking select has a receive case on
+// Done() of a context.Context parameter of the function it is in (the caller's context, handed down call by call).
+func c04r8(c *an.Ctx) {
+	fns := must(c.P.SourceFuncs("drpcmanager"))
+	inPkg := map[*ssa.Function]bool{}
+	for _, f := range fns {
+		inPkg[f] = true
+	}
+	isCtx := func(t types.Type) bool {
+		n, ok := t.(*types.Named)
+		return ok && n.Obj().Pkg() != nil && n.Obj().Pkg().Path() == "context" && n.Obj().Name() == "Context"
+	}
+	nSel := 0
+	for _, entry := range []string{"(*Manager).NewClientStream", "(*Manager).NewServerStream"} {
+		root := c.Fn("drpcmanager", entry)
+		seen := map[*ssa.Function]bool{root: true}
+		work := []*ssa.Function{root}
+		for len(work) > 0 {
+			fn := work[0]
+			work = work[1:]
+			c.Analysed(fn)
+			for _, b := range fn.Blocks {
+				for _, in := range b.Instrs {
+					switch x := in.(type) {
+					case *ssa.Call:
+						if cal := x.Common().StaticCallee(); cal != nil && inPkg[cal] && !seen[cal] {
+							seen[cal] = true
+							work = append(work, cal)
+						}
+					case *ssa.Select:
+						if !x.Blocking {
+							continue
+						}
+						nSel++
+						ok := false
+						for _, st := range x.States {
+							if st.Dir != types.RecvOnly {
+								continue
+							}
+							call, isCall := an.Unwrap(st.Chan).(*ssa.Call)
+							if !isCall || !call.Common().IsInvoke() || call.Common().Method.Name() != "Done" {
+								continue
+							}
+							v := an.Unwrap(call.Common().Value)
+							if prm, isP := v.(*ssa.Parameter); isP && isCtx(prm.Type()) {
+								ok = true
+							}
+							if fv, isF := v.(*ssa.FreeVar); isF && isCtx(fv.Type()) {
+								ok = true
+							}
+						}
+						// reviewed exception, keyed by the channel: the hand-over of the new stream to manageStreams. It is
+						// entered only after waitForPreviousStream saw the previous stream absent or finished, and the
+						// previous watcher returns without further blocking once its stream is finished (C04.R3, C03.R5)
+						handover := false
+						for _, st := range x.States {
+							if st.Dir == types.SendOnly {
+								if ld, isLd := an.Resolve(an.Unwrap(st.Chan)).(*ssa.UnOp); isLd && ld.Op == token.MUL {
+									if f := an.PathOf(ld.X).Last(); f != nil && f.Name() == "streams" {
+										handover = true
+									}
+								}
+							}
+						}
+						if handover && !ok {
+							c.Ok(fmt.Sprintf("%s via %s | hand-over of the new stream to the watcher", an.ShortFunc(fn), entry), c.At(in), "reviewed: send on Manager.streams; the receiver is free once the previous stream finished, which the constructor has already waited for cancellably")
+							continue
+						}
+						c.Check(ok, fmt.Sprintf("%s via %s | blocking select waits on the caller's ctx.Done()", an.ShortFunc(fn), entry), c.At(in), "",
+							"this select is on the synchronous path of "+entry+" and has no case on Done() of the context handed to the function: a caller whose context is cancelled stays parked here until the manager terminates or the previous stream finishes, which a stalled transport can postpone indefinitely")
+					}
+				}
+			}
+		}
+	}
+	c.Floor("blocking selects on the stream constructors' call paths", 3, nSel)
 }
